@@ -126,7 +126,7 @@ func c09pairCount() int64 {
 func (c09) Runs(tier string) int64 {
 	n := int64(len(c09enumeration(tier))) + c09pairCount()
 	if tier == "thorough" {
-		return n + 8000000
+		return n + 16000000
 	}
 	return n + 300000
 }
